@@ -203,6 +203,9 @@ pub fn do_dispatch(el: &mut EventLoop<'static, ()>, timeout: Option<Duration>) -
     if ok {
         after_ok_dispatch(timeout, elapsed);
     }
+    // the poller's table is looked at before the harness takes removed sources apart (taking a Generic
+    // apart deletes its fd from the poller and would hide a missing unregistration)
+    quiescent_checks();
     release_due();
     Ok(ok)
 }
